@@ -258,7 +258,8 @@ func TestVerifC02Verdict(t *testing.T) {
 		"req-rewrite-custom", "req-rewrite-shared", "req-rewrite-beats-allow", "req-allow-custom-stops-safety", "req-allow-shared-then-safety",
 		"req-allow-beats-block", "req-blocked", "req-blocked-hosts-only", "req-safety-second-or-later", "req-svc-rewrite-ignored",
 		"resp-blocked", "resp-allowed", "slots>=3", "meta-allow-added", "meta-rewrite-moved",
-		"repeated-question", "repeated-question-other-requester-modified-response", "change-qtype", "change-host", "edge-host-root-or-tld")
+		"repeated-question", "repeated-question-other-requester-modified-response", "change-qtype", "change-host", "edge-host-root-or-tld",
+		"own-allow-equals-shared-allow-with-safety-match")
 	st.Finish(t)
 
 	dir := t.TempDir()
@@ -380,6 +381,10 @@ func TestVerifC02Verdict(t *testing.T) {
 
 			if i > 0 {
 				classes = append(classes, "change-"+change)
+			}
+
+			if c.OwnAllowEqualsShared(q.host, q.qt) {
+				classes = append(classes, "own-allow-equals-shared-allow-with-safety-match")
 			}
 
 			if !strings.Contains(q.host, ".") {
